@@ -149,39 +149,50 @@ def underscoreOK (x : Str) : Bool :=
       else go cs '!'
   go x saw0
 
+/-- base prefix of `ParseUint(x, 0, _)`: (base, digits) -/
+def basePrefix (x : Str) : Nat × Str :=
+  match x with
+  | '0' :: c :: r =>
+    let l := lowerC c
+    if r.length ≥ 1 && l == 'b' then (2, r)
+    else if r.length ≥ 1 && l == 'o' then (8, r)
+    else if r.length ≥ 1 && l == 'x' then (16, r)
+    else (8, c :: r)
+  | '0' :: r => (8, r)
+  | _ => (10, x)
+
+/-- the digit loop of `ParseUint`: value and "saw an underscore" -/
+def uintDigits (base : Nat) : Str → Nat → Bool → Option (Nat × Bool)
+  | [], n, us => some (n, us)
+  | c :: cs, n, us =>
+    if c == '_' then uintDigits base cs n true
+    else match digitVal c with
+      | none => none
+      | some d => if d ≥ base then none else uintDigits base cs (n * base + d) us
+
 /-- `strconv.ParseUint(x, 0, _)` without the range check: the value, or none on a syntax error. -/
 def parseUint0 (x : Str) : Option Nat :=
   if x.isEmpty then none else
-  let (base, digs) : Nat × Str := match x with
-    | '0' :: c :: r =>
-      let l := lowerC c
-      if r.length ≥ 1 && l == 'b' then (2, r)
-      else if r.length ≥ 1 && l == 'o' then (8, r)
-      else if r.length ≥ 1 && l == 'x' then (16, r)
-      else (8, c :: r)
-    | '0' :: r => (8, r)
-    | _ => (10, x)
-  let rec go : Str → Nat → Bool → Option (Nat × Bool)
-    | [], n, us => some (n, us)
-    | c :: cs, n, us =>
-      if c == '_' then go cs n true
-      else match digitVal c with
-        | none => none
-        | some d => if d ≥ base then none else go cs (n * base + d) us
-  match go digs 0 false with
+  match uintDigits (basePrefix x).1 (basePrefix x).2 0 false with
   | none => none
   | some (n, us) => if us && !underscoreOK x then none else some n
+
+/-- optional sign of `ParseInt` -/
+def splitSign (x : Str) : Bool × Str :=
+  match x with
+  | '+' :: r => (false, r)
+  | '-' :: r => (true, r)
+  | _ => (false, x)
 
 /-- `strconv.ParseInt(x, 0, 32)`: the value if no error. -/
 def parseInt32 (x : Str) : Option Int :=
   if x.isEmpty then none else
-  let (neg, r) := match x with | '+' :: r => (false, r) | '-' :: r => (true, r) | _ => (false, x)
-  match parseUint0 r with
+  match parseUint0 (splitSign x).2 with
   | none => none
   | some n =>
-    if !neg && n ≥ 2147483648 then none
-    else if neg && n > 2147483648 then none
-    else some (if neg then - (n : Int) else n)
+    if !(splitSign x).1 && n ≥ 2147483648 then none
+    else if (splitSign x).1 && n > 2147483648 then none
+    else some (if (splitSign x).1 then - (n : Int) else n)
 
 /-- `strconv.Atoi` with the error ignored (`prefix, _ = strconv.Atoi(..)`): 0 on a syntax error, the
 clamped value on a range error. -/
